@@ -401,4 +401,38 @@ theorem step_core (rest1 : Bytes) (c1 : Cur) (hA : Ascii rest1) (hH : NotIgnored
                 rw [readTokenBody_bad b tl c1 hp' h46 h35 hns hnum h34]
                 exact unexpectedChar_err _ _
 
+/-- the block-string step of the model, exactly, in terms of the specification's `blockBody`: the
+    model additionally takes the `quoteRun r` quotes that follow the specification's closing `"""`
+    into the value and the extent of what it consumes -/
+theorem step_block (body : Bytes) (c1 : Cur) (hA : Ascii body) (raw : List Cp) (nb : Nat) (r : List Cp)
+    (h : blockBody body = some (raw, nb, r)) :
+    ∃ t c', readTokenBody (34 :: 34 :: 34 :: body) c1 = .tok t (r.drop (quoteRun r)) c' ∧
+      t.kind = .blockString ∧ t.start = c1.endR ∧ t.stop = c1.endR + (nb + 3) ∧
+      c'.endR = c1.endR + (nb + 3) + quoteRun r ∧
+      t.value = blockStringValue (normCR raw ++ List.replicate (quoteRun r) 34) ∧
+      r = (34 :: 34 :: 34 :: body).drop (nb + 3) := by
+  have hm := readBlockLoop_spec c1 body (c1.adv 3 3) [] hA
+  rw [h] at hm
+  obtain ⟨c', h1, h2⟩ := hm
+  rw [readTokenBody_block, h1]
+  refine ⟨_, c', rfl, rfl, rfl, by simp [Cur.adv]; omega, by rw [h2]; simp [Cur.adv]; omega, by simp, ?_⟩
+  have := blockBody_drop h
+  simpa using this.symm
+
+/-- under `NoLongQuoteRun` the block-string step is the specification's token -/
+theorem step_block_ok (body : Bytes) (c1 : Cur) (hA : Ascii body) (raw : List Cp) (nb : Nat) (r : List Cp)
+    (h : blockBody body = some (raw, nb, r)) (hq : NoLongQuoteRun body = true) :
+    StepIs (readTokenBody (34 :: 34 :: 34 :: body) c1) c1 (34 :: 34 :: 34 :: body) .blockString
+      (Spec.blockStringValue raw) (nb + 3) := by
+  obtain ⟨t, c', e1, e2, e3, e4, e5, e6, e7⟩ := step_block body c1 hA raw nb r h
+  have hq0 : quoteRun r = 0 := by
+    unfold NoLongQuoteRun at hq
+    rw [h] at hq
+    simpa using hq
+  rw [hq0] at e1 e5 e6
+  simp only [List.drop_zero, List.replicate_zero, List.append_nil, Nat.add_zero] at e1 e5 e6
+  refine ⟨t, c', by rw [e1, e7], e2, ?_, e3, e4, e5, by simp⟩
+  rw [e6, model_value_eq_spec,
+    utf8Encode_ascii _ (specBlockStringValue_ascii raw (blockBody_ascii h hA))]
+
 end Gql.Lexer
